@@ -83,6 +83,39 @@ theorem recorded_error_beats_output (x : Err) (ok : Bool) (v : Nat) :
     callerOutput (some (encErr x)) ok v = (0, some (encErr x)) := by
   simp [callerOutput, aeLoad]
 
+/-! ### several cancels in one call: cancel is idempotent after the first (round 5b) -/
+
+/-- under `once` no sequence of cancel calls — whatever the dynamic types of their errors — makes the cell panic, and
+the recorded error is the FIRST one. -/
+theorem once_records_the_first (e : TErr) (es : List TErr) : cancelsWithOnce (e :: es) = some (some e) := rfl
+
+theorem once_never_panics (es : List TErr) : cancelsWithOnce es ≠ none := by
+  cases es <;> simp [cancelsWithOnce, aeStoreTyped]
+
+/-- WITHOUT the wrapper (seeded C10-8) two cancels with errors of different dynamic types panic inside the library —
+a panic no user function raised — and two of the same type return the LATER error. -/
+theorem without_once_panics_or_overwrites :
+    cancelsWithoutOnce [(5, 0), (1, 1)] = none ∧ cancelsWithoutOnce [(5, 0), (6, 0)] = some (some (6, 0)) := by decide
+
+/-- without the wrapper the cell never panics only if all errors have one dynamic type. -/
+theorem without_once_ok_of_one_type (t : Nat) (es : List TErr) (h : ∀ e ∈ es, e.2 = t) (c : TErr) (hc : c.2 = t) :
+    (es.foldlM aeStoreTyped (some c)).isSome = true := by
+  induction es generalizing c with
+  | nil => rfl
+  | cons a as ih =>
+    have ha : a.2 = t := h a (by simp)
+    simp only [List.foldlM_cons, aeStoreTyped, hc, ha, if_true]
+    exact ih (fun e he => h e (by simp [he])) a ha
+
+/-- the model: a second cancel, once the first has completed (`once = 2`), changes neither the recorded error nor
+anything else but the caller's own script position (`Props.first_cancel_wins` is the statement over whole runs). -/
+theorem later_cancel_is_a_noop (c : Cfg) (s : St) (i : Nat) (e : Option Nat) (sc : List UAct)
+    (h : s.mp i = .run (.cancel e :: sc)) (ho : s.once = 2) :
+    stepMapper c s i = some { s with mp := upd s.mp i (.run sc) } := by
+  unfold stepMapper
+  rw [h]
+  simp [ho]
+
 /-! ### the building blocks: what the `unit` ops of the harness are compared with is what the model's steps do -/
 
 /-- a mapper's `Write` is dropped (the collector is untouched, the script goes on) iff the context is over or `done`
